@@ -189,7 +189,7 @@ theorem frontEnd_bytes_request_placed (d : Defaults) {cpu mem : Nat} {sto : Opti
     cpu ≤ g.coresMcpu ∧ mem ≤ g.memBytes ∧ sto.getD d.storageBytes ≤ g.storageGiB * 1024 ^ 3 ∧
       ∃ p ∈ pools, p.name = g.coll ∧ p.Matches cloud (lab.getD "") (pr.getD d.preemptible) ∧
         g.coresMcpu ≤ p.workerCores * 1000 := by
-  simp only [frontEnd] at h
+  simp only [frontEnd, poolRequest, Option.getD_some] at h
   split at h
   · simp at h
   next hvalid =>
@@ -197,9 +197,9 @@ theorem frontEnd_bytes_request_placed (d : Defaults) {cpu mem : Nat} {sto : Opti
         (sto.getD d.storageBytes) = .some g := by
       cases hs : selectInstColl price locs pools j cloud none (lab.getD "") (pr.getD d.preemptible) none cpu mem
           (sto.getD d.storageBytes) with
-      | err => cases lab <;> cases pr <;> cases sto <;> simp_all [Option.getD]
-      | none => cases lab <;> cases pr <;> cases sto <;> simp_all [Option.getD]
-      | some g' => cases lab <;> cases pr <;> cases sto <;> simp_all [Option.getD]
+      | err => rw [hs] at h; simp [finish] at h
+      | none => rw [hs] at h; simp [finish] at h
+      | some g' => rw [hs] at h; simp only [finish, Answer.placed.injEq] at h; rw [h]
     obtain ⟨h1, h2, h3⟩ := granted_ge_request price locs pools j cloud _ _ hsel
     obtain ⟨p, hp, hn, hm, -, hfit, -⟩ := fits_worker price locs pools j cloud _ _ hsel
     exact ⟨h1, h2, h3, p, hp, hn, hm, hfit⟩
@@ -226,7 +226,7 @@ theorem empty_machine_type_is_internal_error :
 theorem no_internal_error_fails : ¬ NoInternalError := by
   intro h
   exact h (fun _ _ _ => 0) [] [] ⟨"job-private", .gcp⟩ ⟨1000, .sym "standard", 0, true⟩ .gcp
-    ⟨some "", none, none, none, none, none⟩ (by simp) (by decide) empty_machine_type_is_internal_error
+    ⟨some "", none, none, none, none, none⟩ (by simp) (by intro name hn; simp [Option.getD] at hn; subst hn; decide) empty_machine_type_is_internal_error
 
 /-- PARTIAL (excluding hypothesis `hmt`: the machine type is not the empty string): every other request
 accepted by the schema is placed or rejected, never an internal error.  Missing for the full statement:
@@ -240,19 +240,15 @@ theorem no_internal_error_partial (d : Defaults) (r : Request) (hwf : ∀ p ∈ 
     intro res h; cases res <;> simp_all [finish]
   cases mt with
   | none =>
-    simp only [frontEnd]
+    simp only [frontEnd, poolRequest]
     split
     · simp
     · cases hmr : memo.getD d.memory with
       | bytes b =>
-        have : (match memo with | some m => m | none => d.memory) = .bytes b := by
-          cases memo <;> simpa [Option.getD] using hmr
-        simp only [this]
+        dsimp only
         exact hfin _ (pool_request_no_internal_error price locs pools j cloud _ _ hwf none _ _ _)
       | sym name =>
-        have hmm : (match memo with | some m => m | none => d.memory) = .sym name := by
-          cases memo <;> simpa [Option.getD] using hmr
-        simp only [hmm]
+        dsimp only
         have hin := hmem name (by simpa using hmr)
         obtain ⟨wt, hwt, hpc⟩ := memory_types_resolve name hin cloud (by cases cloud <;> simp)
         rw [hwt]
